@@ -37,7 +37,7 @@ func hookOptionTable(c *Ctx, r *Rng) {
 	nan := math.Float32frombits(0x7fc00000)
 	for _, p := range []float32{0, -0.5, 1, 1.0000001, 1.1, 0.5, 1e-30, 2, 3e38, -0.25, -1e30, -1e-30, float32(math.Copysign(0, -1)),
 		nan, float32(math.Inf(1)), float32(math.Inf(-1)), -1, math.Float32frombits(0x80000001)} {
-		for _, d := range []int{-10, -1, 0, 1, 60, math.MinInt64, math.MaxInt64} {
+		for _, d := range []int{-10, -1, 0, 1, 60, math.MinInt64, math.MaxInt64, math.MaxInt32, math.MaxInt32 + 1, 9223372036, 10000000000} {
 			viCheck(c, p, d, r.Bool())
 		}
 	}
@@ -130,7 +130,8 @@ func runC18(c *Ctx) {
 	}
 	r := c.R
 	probs := []float32{1, 0.5, 0.25, 0.1, 0.999, 1e-7, 0.75, math.Float32frombits(0x3f7fffff) /* largest < 1 */, math.Float32frombits(1) /* smallest subnormal */}
-	deltas := []int{1, 2, 60, 600, 3600, 1 << 24, 1 << 31, math.MaxInt64 / 2000000000}
+	// up to the largest accepted delta; beyond it (refused since D29) the added seconds overflow time.Duration
+	deltas := []int{1, 2, 60, 600, 3600, 1 << 24, 1<<31 - 1, 1 << 31, math.MaxInt64 / 2000000000, 10000000000, math.MaxInt64 / 2, math.MaxInt64}
 	// configuration checks
 	hookOptionTable(c, r)
 	iv, miv := 30*time.Minute, 15*time.Minute
